@@ -106,7 +106,16 @@ def run_recorded(pq, sim, instrs, shots=1, initial_state=None):
         status, exc = "failed", e
     finally:
         rec.uninstall()
-    nsteps = sum(1 for t in rec.traces for ev in t["events"] if ev.get("e") == "step")
+    # simulation steps of instructions other than preparations (state initialisation is not evolution)
+    nsteps = 0
+    for t in rec.traces:
+        prog = t["events"][0].get("prog", []) if t["events"] else []
+        i = 0
+        for ev in t["events"]:
+            if ev.get("e") == "ibegin":
+                i = ev["i"]
+            elif ev.get("e") == "step" and not (0 < i <= len(prog) and prog[i - 1].get("kind") == "prep"):
+                nsteps += 1
     return status, exc, result, nsteps, rec.traces
 
 
@@ -178,6 +187,22 @@ def mutants(ctx, pq, all_traces):
             prog = base()
             prog.insert(pos + 1, prep[0](d))
             expect_reject(ctx, pq, f"prep-after-gate:{sname}@{pos + 1}", f"preparation after a gate on {sname}", mk(), prog, all_traces)
+        # fixed-arity gates registered without modes (Q() / Q(all)) on a register of another size, and through from_dict
+        for gname in ("Squeezing", "Kerr", "Phaseshifter", "Beamsplitter5050", "Beamsplitter", "Fourier"):
+            g0 = factory(pq, gname, d)
+            if g0 is None or not any(type(g0) is c for c in mk()._instruction_map):
+                continue
+            fresh = type(g0)(**{k: v for k, v in g0.params.items()})
+            prog = [p(d) for p in prep] + [fresh] + [pq.ParticleNumberMeasurement().on_modes(*range(d))]
+            expect_reject(ctx, pq, f"default-modes-arity:{sname}:{gname}", f"{gname} (arity {g0.NUMBER_OF_MODES}) registered on all {d} modes of {sname}", mk(), prog, all_traces)
+            try:
+                dct = {"instructions": [{"type": gname, "attributes": {"constructor_kwargs": dict(g0.params), "modes": list(range(d))}}]}
+                err = None
+                progd = pq.Program.from_dict(dct)
+            except Exception as e:  # noqa
+                err, progd = e, None
+            expect_reject(ctx, pq, f"from_dict-arity:{sname}:{gname}", f"{gname} on {d} modes built with Program.from_dict ({sname})", mk(),
+                          ([p(d) for p in prep] + list(progd.instructions)) if progd is not None else [], all_traces, build_error=err)
         # repeated mode in the final measurement
         prog = base()
         prog[-1] = pq.ParticleNumberMeasurement().on_modes(0, 0)
